@@ -277,6 +277,10 @@ def specs(tier):
         add("gd-cons-lmi-verbose", cons=['le', 'eq'], lmis=['sym2'], verbose=1)
         add("gd-primal", **{'return': 'primal'})
         add("skew", fclass='skew', value_metric=False)
+        # one gradient-step model per remaining shipped class (operators: metric on points only)
+        operators = ('monotone', 'strmono', 'coco', 'lipop', 'nonexp', 'cocostr', 'lipstr', 'negcomo')
+        for key in ('sc', 'strongly', 'lipschitz', 'smooth', 'indicator', 'support') + operators:
+            add("class-" + key, fclass=key, **(dict(value_metric=False) if key in operators else {}))
     return out
 
 
